@@ -234,6 +234,7 @@ def check_normal(eng, ex, c, st, old, entry_frame, entry_heap, result, mod_oids,
     if fi.is_generator():
         fv["yielded"] = st.frames[0].get("__yielded__")
     saved_frames = st.frames
+    ex.fr.snap_frames = saved_frames
     st.frames = [{}]
     try:
         goals = []
@@ -248,11 +249,13 @@ def check_normal(eng, ex, c, st, old, entry_frame, entry_heap, result, mod_oids,
         frame_obligations(eng, ex, c, st, entry_heap, mod_oids)
     finally:
         st.frames = saved_frames
+        ex.fr.snap_frames = None
 
 
 def check_raise(eng, ex, c, st, old, entry_frame, entry_heap, r, mod_oids):
     fv = post_frame(st, entry_frame, c)
     saved_frames = st.frames
+    ex.fr.snap_frames = saved_frames
     st.frames = [{}]
     try:
         alts = []
@@ -271,6 +274,7 @@ def check_raise(eng, ex, c, st, old, entry_frame, entry_heap, r, mod_oids):
         frame_obligations(eng, ex, c, st, entry_heap, mod_oids)
     finally:
         st.frames = saved_frames
+        ex.fr.snap_frames = None
 
 
 def solve_all(eng, res, timeout_ms=10000):
@@ -330,7 +334,7 @@ def _child_solve(eng, o, timeout_ms, wfd):
         os._exit(0)
 
 
-def solve_parallel(eng, results, jobs=12, timeout_ms=10000, hard_factor=5.0, progress=None):
+def solve_parallel(eng, results, jobs=12, timeout_ms=10000, hard_factor=5.0, progress=None, sem=None):
     """discharge all obligations of all FnResults in forked children (z3 terms are not
     picklable, fork shares them); a hard wall-clock limit per obligation backs up the
     solver's own timeout, which the sequence solver does not always honour."""
@@ -344,6 +348,8 @@ def solve_parallel(eng, results, jobs=12, timeout_ms=10000, hard_factor=5.0, pro
     done = 0
     while idx < len(queue) or running:
         while idx < len(queue) and len(running) < jobs:
+            if sem is not None and not sem.acquire(block=False):
+                break       # global solver-slot budget exhausted: wait for a slot
             res, o = queue[idx]
             idx += 1
             tmo = o_timeout(res, timeout_ms)
@@ -371,6 +377,8 @@ def solve_parallel(eng, results, jobs=12, timeout_ms=10000, hard_factor=5.0, pro
                 os.close(rfd)
                 os.waitpid(pid, 0)
                 del running[pid]
+                if sem is not None:
+                    sem.release()
                 try:
                     out = pickle.loads(data)
                 except Exception:
@@ -400,6 +408,8 @@ def solve_parallel(eng, results, jobs=12, timeout_ms=10000, hard_factor=5.0, pro
                 os.close(rfd)
                 os.waitpid(pid, 0)
                 del running[pid]
+                if sem is not None:
+                    sem.release()
                 o.verdict = "unknown"
                 o.time = now - start
                 o.reason = "hard wall-clock limit"
